@@ -151,5 +151,11 @@ class Base58XmrDecoder:
 
         Returns:
             bytes: Unpadded string
+
+        Raises:
+            ValueError: If the decoded block value does not fit the expected length
         """
+        # The block value shall fit in the expected number of bytes (no silent truncation)
+        if len(dec_bytes.lstrip(b"\x00")) > unpad_len:
+            raise ValueError(f"Invalid block (decoded value overflows {unpad_len} bytes)")
         return dec_bytes[len(dec_bytes) - unpad_len:len(dec_bytes)]
